@@ -12,7 +12,7 @@ def gen(tier, rng):
     for n in range(126):
         yield [(9, 1, lcg_bytes(n, n + 1))]
     # pings at every position of streams with messages / fragments / pongs
-    for _ in range(400 if tier == "quick" else 20000):
+    for _ in range(1200 if tier == "quick" else 20000):
         frames = legal_stream(rng, max_msgs=3, max_frags=3, max_ctl=0, lens=(0, 1, 5, 126))
         k = rng.randrange(0, 5 if tier == "quick" else 7)
         for _ in range(k):
